@@ -380,7 +380,20 @@ ScCopat3(G(_, _)) ==
        Ob("v", TInt, <<Thk(CoData("S3"))>>),
        Lit(<<[k |-> "exit"], V(2)>>) >>)
 
-ScenarioCfg == \E p \in Prods : p \in {"sc-escape", "sc-escapeT", "sc-copat3"}
+(* "arms3": a three-arm match in SYNTHESIS position (the body of an unannotated thunk in lean renderings): branch *)
+(* agreement is enforced by joining the arm types, not by an expected type.                                      *)
+(*   let f = { match H0 | +N(u) => H1 | +J(p) => H2 | +K(b) => H3 end } in do y <- ! f; ! exit y                 *)
+(* (lean renderings leave the let unannotated: the thunk body is synthesised)                                    *)
+ScArms3(G(_, _)) ==
+  G([k |-> "let", a |-> Thk(Ret(TInt)), c |-> OS],
+    << Lit(<<[k |-> "thunk", c |-> Ret(TInt)], [k |-> "match", d |-> "O", c |-> Ret(TInt), skip |-> 0]>>),
+       Ob("v", Data("O"), << >>),
+       Ob("c", Ret(TInt), <<TUnit>>),
+       Ob("c", Ret(TInt), <<Pair(TInt, TInt)>>),
+       Ob("c", Ret(TInt), <<Data("B")>>),
+       Lit(<<[k |-> "do", a |-> TInt, c |-> OS], [k |-> "force", c |-> Ret(TInt)], V(1), [k |-> "exit"], V(2)>>) >>)
+
+ScenarioCfg == \E p \in Prods : p \in {"sc-escape", "sc-escapeT", "sc-copat3", "sc-arms3"}
 Gen ==
   /\ phase = "gen" /\ todo # << >>
   /\ Len(out) + Len(todo) <= MaxLen
@@ -393,7 +406,8 @@ Gen ==
      \/ o.s = "c" /\ o.ty = OS /\ o.ctx = << >> /\ out = << >> /\ On("sc-escape") /\ ScEscape(Good)
      \/ o.s = "c" /\ o.ty = OS /\ o.ctx = << >> /\ out = << >> /\ On("sc-escapeT") /\ ScEscapeT(Good)
      \/ o.s = "c" /\ o.ty = OS /\ o.ctx = << >> /\ out = << >> /\ On("sc-copat3") /\ ScCopat3(Good)
-     \/ o.s \in {"v", "c"} /\ Faults # {} /\ faulty = "none" /\ GenFault(o)
+     \/ o.s = "c" /\ o.ty = OS /\ o.ctx = << >> /\ out = << >> /\ On("sc-arms3") /\ ScArms3(Good)
+     \/ o.s \in {"v", "c"} /\ Faults # {} /\ faulty = "none" /\ (out # << >> \/ ~ScenarioCfg) /\ GenFault(o)
 
 ----------------------------------------------------------------------------
 (* Reference semantics: environment-passing CK machine.                    *)
